@@ -62,7 +62,7 @@ func implC19(line string) string {
 		return implSynErr(unhx(f[2]))
 	case "trace":
 		limit, _ := strconv.Atoi(f[1])
-		return implTrace(limit, unhx(f[2]), unhx(f[3]))
+		return implTrace(limit, unhx(f[2]), unhx(strings.SplitN(f[3], "/", 2)[0]))
 	case "cls":
 		v, _ := strconv.Atoi(f[2])
 		return implCls(f[1], v)
